@@ -12,7 +12,7 @@ import ast
 from typing import List, Optional
 
 from ..model import Program, AnalysisError, FuncInfo, walk_local, dotted, parents_of
-from ..report import RuleResult
+from ..report import RuleResult, guard
 from ..astutil import src, site, calls_in, call_name, is_super_call, kwarg, const_value, is_self_attr, enclosing_stmt
 from ..cfg import CFG
 from ..callgraph import self_closure
@@ -439,9 +439,16 @@ def pred_fresh(prog: Program) -> RuleResult:
             comps = [x for x in walk_local(p.node) if isinstance(x, (ast.ListComp, ast.SetComp, ast.GeneratorExp))]
             loops = [x for x in walk_local(p.node) if isinstance(x, ast.For)]
             ok = False
+            def _excludes_computed(cond):
+                # `not v._predicate_type_` or `v._predicate_type_ is None`: every kind of computed variable is left out
+                if isinstance(cond, ast.UnaryOp) and isinstance(cond.op, ast.Not) and any(m in src(cond.operand) for m in COMPUTED_MARKS):
+                    return True
+                return (isinstance(cond, ast.Compare) and len(cond.ops) == 1 and isinstance(cond.ops[0], (ast.Is, ast.Eq)) and isinstance(cond.comparators[0], ast.Constant)
+                        and cond.comparators[0].value is None and any(m in src(cond.left) for m in COMPUTED_MARKS))
+
             for x in comps:
                 for cond in x.generators[0].ifs:
-                    if isinstance(cond, ast.UnaryOp) and isinstance(cond.op, ast.Not) and any(m in src(cond.operand) for m in COMPUTED_MARKS):
+                    if _excludes_computed(cond):
                         ok = True
             for lp in loops:
                 for t in [y for y in ast.walk(lp) if isinstance(y, ast.If)]:
@@ -600,7 +607,7 @@ def run(prog: Program, tier: str) -> List[RuleResult]:
     from .c02 import ep_bound
 
     # the truth a symbolic call contributes: flagged from its result only in condition position (shared with C01)
-    return [pred_align(prog), pred_dispatch(prog), pred_once(prog), pred_names(prog), pred_fresh(prog), lit_one(prog), arg_symbolic(prog), ep_operand(prog),
+    return [guard(lambda: pred_align(prog)), guard(lambda: pred_dispatch(prog)), guard(lambda: pred_once(prog)), guard(lambda: pred_names(prog)), guard(lambda: pred_fresh(prog)), guard(lambda: lit_one(prog)), guard(lambda: arg_symbolic(prog)), guard(lambda: ep_operand(prog)),
             # a variable written in two positions of a call, or bound by an earlier conjunct, reaches the callable with its bound value -
             # whatever that value is: a falsy one taken for "not bound" is enumerated again and the callable runs with arguments that were never written together
-            ep_bound(prog), _hv_truth(prog)]
+            guard(lambda: ep_bound(prog)), guard(lambda: _hv_truth(prog))]
